@@ -25,16 +25,21 @@ from common import Proc, log
 sys.path.insert(0, os.path.join(common.ROOT, "drivers"))
 
 SRC = 'nop\n.test "t" {\nldx #0\nloop:\ninx\njmp loop\n}\n'
-STATES = ["none", "idle", "running", "paused"]
+STATES = ["none", "idle", "running", "paused", "dead", "dead_poisoned"]
+LIVE_STATES = STATES[:4]
 QUICK_ORDERS = [["shutdown", "exit"], ["close"], ["disconnect", "shutdown", "exit"], ["shutdown", "disconnect", "exit"]]
 MORE_ORDERS = [["exit"], ["shutdown", "close"], ["shutdown", "exit", "disconnect"], ["close", "disconnect"], ["disconnect", "close"],
-               ["exit", "close"], ["shutdown", "exit", "close"], ["disconnect", "exit"]]
+               ["exit", "close"], ["shutdown", "exit", "close"], ["disconnect", "exit"],
+               # a (second) debugger front end connects to the debug port while the editor shuts down
+               ["connect", "shutdown", "exit"], ["shutdown", "connect", "exit"], ["connect", "close"], ["disconnect", "connect", "shutdown", "exit"]]
 SLOW_ORDERS = [["shutdown"]]                      # lsp-server waits 30 s for `exit`, then start() fails: exit status 1
 NORMAL_BOUND = 30.0                               # normal time to exit is 0.02 - 0.1 s
 SLOW_BOUND = 30.0 + 45.0
 
 
 def model_state(state):
+    if state in ("dead", "dead_poisoned"):
+        return {"dead": state, "attached": False, "machine": "none"}
     return {"attached": state != "none", "machine": {"running": "running", "paused": "paused"}.get(state, "none")}
 
 
@@ -46,6 +51,7 @@ class Session:
         from dap_client import DapSession
         self.state = state
         self.dap = None
+        self.extra_socks = []
         self.setup_error = None
         if state == "none":
             self.lsp = LspServer(mos, disk={"main.asm": SRC}, workdir=workdir)
@@ -58,6 +64,20 @@ class Session:
                 r = self.dap.request("initialize", {"adapterID": "mos", "linesStartAt1": True, "columnsStartAt1": True})
             elif state == "running":
                 r = self.dap.handshake("t")
+            elif state == "dead":
+                # a `pause` between launch and configurationDone panics the debug-server thread
+                # ("Should never receive any machine events during launch")
+                r = self.dap.handshake("t", configuration_done=False)
+                if r.ok:
+                    self.dap.request("pause", {"threadId": 1}, timeout=10)
+                    self._await_thread_death()
+            elif state == "dead_poisoned":
+                # `launch` without a mos.toml: config().unwrap() panics while the thread holds the LSP context lock
+                os.remove(os.path.join(self.lsp.dir, "mos.toml"))
+                r = self.dap.request("initialize", {"adapterID": "mos", "linesStartAt1": True, "columnsStartAt1": True})
+                if r.ok:
+                    self.dap.request("launch", {"workspace": self.lsp.dir, "testRunner": {"testCaseName": "t"}}, timeout=3)
+                    self._await_thread_death()
             else:
                 r = self.dap.handshake("t", breakpoints=[5])
                 if r.ok:
@@ -68,6 +88,13 @@ class Session:
                 self.setup_error = "debugger handshake failed: %r" % (r,)
         self.port = self.lsp.port
         self.pid = self.lsp.p.pid
+
+    def _await_thread_death(self):
+        for _ in range(200):
+            if "panicked at" in self.lsp.stderr_tail(4000):
+                return
+            time.sleep(0.02)
+        self.setup_error = "the debug-server thread did not panic (the handler may have been repaired: drop this session state)"
 
     def play(self, script, rng, jitter, pipelined):
         trace = []
@@ -89,6 +116,13 @@ class Session:
                 except Exception:
                     pass
                 trace.append(("close", "done"))
+            elif a == "connect":
+                try:
+                    c = socket.create_connection(("127.0.0.1", self.port), timeout=2.0)
+                    self.extra_socks.append(c)
+                    trace.append(("connect", "connected"))
+                except OSError as e:
+                    trace.append(("connect", "refused"))
             elif a == "disconnect":
                 if self.dap is not None and self.dap.sock is not None:
                     r = self.dap.request("disconnect", {}, timeout=10)
@@ -141,6 +175,11 @@ class Session:
         return obs
 
     def close(self):
+        for c in self.extra_socks:
+            try:
+                c.close()
+            except Exception:
+                pass
         try:
             if self.dap is not None:
                 self.dap.close()
@@ -173,6 +212,11 @@ def run_scenario(chk, mos, model, state, script, rng, workdir, jitter, dist, tag
         sess = None
         try:
             sess = Session(mos, state, workdir)
+            if sess.setup_error and state.startswith("dead") and "did not panic" in sess.setup_error:
+                # the request handlers that used to kill the debug thread have been repaired: this state cannot be produced
+                # through the protocol any more (the model still covers it)
+                dist["dead_state_unreachable"] = dist.get("dead_state_unreachable", 0) + 1
+                return
             if sess.setup_error:
                 if attempt < 2:
                     continue
@@ -224,6 +268,13 @@ def run(chk):
     thorough = chk.tier == "thorough"
     common.translate_for(chk, ["life"])
     chk.proof = common.prove("C20")
+    if thorough and chk.proof["rc"] == 0:
+        # independent re-check of the compiled proofs (about 3 minutes: the exhaustive sweeps are evaluated again)
+        with common.Lock("coq"):
+            rc, out = common.run(["coqchk", "-o", "-silent", "-Q", "theories", "Mos", "Mos.props.C20"], cwd=common.COQ, timeout=1500)
+        chk.extra["coqchk"] = {"rc": rc, "tail": out[-300:]}
+        if rc != 0:
+            chk.tie_break("coqchk", "coqchk rejects props/C20.vo: %s" % out[-800:])
     model = Proc([common.build_model("c20")])
     mos = common.build_mos()
     workdir = os.path.join(common.CACHE, "work")
